@@ -34,7 +34,9 @@ CONSTANTS FieldBytes,  \* function: field name -> its bytes (TLC cannot order st
 
 Dropped == -1          \* stands for math.MaxInt64 in document-number maps
 
-NormAt(f, len) == NormTable[f][len + 1]      \* the norm of a field of total length len
+\* the norm of a field of total length len; a one-entry table means "the same norm for every length"
+\* (scenarios whose field lengths approach 2^31 cannot carry a table indexed by length)
+NormAt(f, len) == LET t == NormTable[f] IN IF Len(t) = 1 THEN t[1] ELSE t[len + 1]
 
 -----------------------------------------------------------------------------
 (* Generic helpers *)
@@ -95,16 +97,20 @@ Build(batch) ==
 
 \* the input contract of the properties' quantifiers, as far as it concerns one batch
 ValidBatch(batch) ==
-    LET names == BatchFieldNames(batch) IN
+    LET names == BatchFieldNames(batch)
+        dvf   == BatchDvFields(batch)
+    IN
     \A d \in DOMAIN batch : \A i \in DOMAIN batch[d] :
         LET fi == batch[d][i] IN
         /\ fi.name # ""
+        \* a term occurs at most once per field instance (cardinality instead of a quadratic comparison:
+        \* batches with tens of thousands of terms are validated too)
+        /\ Cardinality({fi.terms[k].term : k \in DOMAIN fi.terms}) = Len(fi.terms)
         /\ \A k \in DOMAIN fi.terms :
               LET o == fi.terms[k] IN
               /\ o.freq >= 1 /\ o.freq >= Len(o.locs)
               /\ \A j \in DOMAIN o.locs : o.locs[j].field = "" \/ o.locs[j].field \in names
-              /\ (fi.name \in BatchDvFields(batch)) => (\A b \in DOMAIN o.term : o.term[b] # 255)
-              /\ \A k2 \in DOMAIN fi.terms : k2 # k => fi.terms[k2].term # o.term
+              /\ (fi.name \in dvf) => (\A b \in DOMAIN o.term : o.term[b] # 255)
 
 \* C16 additionally assumes what Bluge's analysers guarantee
 LenIsSumFreq(batch) ==
@@ -232,16 +238,23 @@ DocFreqSum(doc, f) ==
     LET is == InstsOf(doc, f) IN
     SumSeq([i \in DOMAIN is |-> SumSeq([k \in DOMAIN is[i].terms |-> is[i].terms[k].freq])])
 
+\* SumTotalTermFrequency is a 64-bit counter; TLC integers are 32 bit, so the sum is kept in two base-2^20 digits
+BigBase == 1048576
+BigZero == [hi |-> 0, lo |-> 0]
+BigAddInt(a, n) == LET lo == a.lo + (n % BigBase) IN [hi |-> a.hi + (n \div BigBase) + (lo \div BigBase), lo |-> lo % BigBase]
+BigAdd(a, b) == LET lo == a.lo + b.lo IN [hi |-> a.hi + b.hi + (lo \div BigBase), lo |-> lo % BigBase]
+ToBig(n) == BigAddInt(BigZero, n)
+
 Stats(c, f) ==
-    IF ~KnownField(c, f) THEN [total |-> 0, docs |-> 0, sumttf |-> 0]
+    IF ~KnownField(c, f) THEN [total |-> 0, docs |-> 0, sumttf |-> BigZero]
     ELSE [total  |-> Len(c.docs),
           docs   |-> IF c.origin = "built"
                      THEN Cardinality({d \in DOMAIN c.docs : InstsOf(c.docs[d], f) # <<>>})
                      ELSE Cardinality({d \in DOMAIN c.docs : TermsOfDoc(c.docs[d], f) # {}}),
-          sumttf |-> SumSeq([d \in DOMAIN c.docs |-> DocFreqSum(c.docs[d], f)])]
+          sumttf |-> FoldLeft(LAMBDA acc, doc : BigAddInt(acc, DocFreqSum(doc, f)), BigZero, c.docs)]
 
 StatsAdd(a, b) == [total |-> a.total + b.total, docs |-> a.docs + b.docs,
-                   sumttf |-> a.sumttf + b.sumttf]
+                   sumttf |-> BigAdd(a.sumttf, b.sumttf)]
 
 ContentLenIsSumFreq(c) ==
     \A d \in DOMAIN c.docs : \A i \in DOMAIN c.docs[d].insts :
